@@ -1245,4 +1245,4 @@ mod test {
 // verification hooks (glass_easel_verif): compiled only under the cfg guard
 #[cfg(any(kani, glass_easel_verif))]
 #[path = "/verif/hooks/sc_root.rs"]
-mod verif;
+pub mod verif;
